@@ -1,6 +1,7 @@
 CONSTANTS
   Ext <- AllExtensions
   Conv = "bundled"
+  Variants = FALSE
   Syntax <- SyntaxAsExt
   Defects = FALSE
   Mode = "bfs"
